@@ -15,8 +15,10 @@ correspondence run of `harness/c19.cpp`: `awgn` element-wise with the drawn valu
 `_harm_analyze`/`snr`/`sinad`/`thd` skeleton bit for bit on given spectra, `_periodogram` against the textbook DFT,
 `rand`/`randn`/`awgn` streams against the `std::mt19937` + libstdc++ distribution instance of the engine).
 
-* T19.1 `awgn_scale_real`, `awgn_scale_cmplx`, `awgn_noise_power_real`, `awgn_noise_power_cmplx` (exact, ℝ):
-  the variance the code gives the noise is `P_x / 10^(snr/10)` — in total over both components for complex input.
+* T19.1 `gen_awgnSigmaR_sq`, `gen_awgnSigmaC_sq`, `awgn_scale_real`, `awgn_scale_cmplx`, `awgn_noise_power_real`,
+  `awgn_noise_power_cmplx` (exact, ℝ): the variance the code gives the noise is `P_x / 10^(snr/10)` — in total over both
+  components for complex input.  The deviation formulas are NOT hand-written: they are `Gen.awgnSigmaR` / `Gen.awgnSigmaC`
+  (`Gen/Awgn.lean`, regenerated from `lib/awgn.cpp`'s AST on every run), so these proofs are re-checked against the source.
 * T19.2 `rng_replay`, `rng_replay_eq`, `rng_replay_state`, `randi*_bounds`, `randi_single`: for EVERY engine,
   every history and every interleaved call sequence the values after `rng(seed)` depend on `seed` and the calls only;
   `randi` stays inside its inclusive bounds (given the `std::uniform_int_distribution` contract).
@@ -95,31 +97,53 @@ theorem rmsC_sq (x : List (Cx ℝ)) : rmsC x ^ 2 = powerC x := by
   simp only [fn_sqrt, fn_ofNat]
   exact Real.sq_sqrt h
 
-/-- `(10^(-snr/20))² = 1 / 10^(snr/10)` -/
-theorem dbFactor_sq (snr : ℝ) : dbFactor snr ^ 2 = 1 / (10 : ℝ) ^ (snr / 10) := by
-  unfold dbFactor
-  simp only [fn_pow, fn_ofNat, fn_ofInt]
+/-- `(10^((-1)·snr/20))² = 1 / 10^(snr/10)` (the `std::pow` factor, in the shape the generated code has it) -/
+theorem dbPow_sq (snr : ℝ) : ((10 : ℝ) ^ (-1 * snr / 20)) ^ 2 = 1 / (10 : ℝ) ^ (snr / 10) := by
   rw [← Real.rpow_natCast, ← Real.rpow_mul (by norm_num)]
-  have : ((-1 : ℤ) : ℝ) * snr / ((20 : ℕ) : ℝ) * ((2 : ℕ) : ℝ) = -(snr / 10) := by
+  have : -1 * snr / 20 * ((2 : ℕ) : ℝ) = -(snr / 10) := by
     push_cast; ring
   rw [this, Real.rpow_neg (by norm_num)]
   simp [one_div]
 
-/-- T19.1 (real): the variance the code gives each noise sample is `P_x / 10^(snr/10)`. -/
+/-- T19.1 on the GENERATED formula of the real overload (`Gen/Awgn.lean`, regenerated from `lib/awgn.cpp` on every
+run): whatever `rms(arr)` is, the square of the deviation is `rms² / 10^(snr/10)`. -/
+theorem gen_awgnSigmaR_sq (r snr : ℝ) : Gen.awgnSigmaR r snr ^ 2 = r ^ 2 / (10 : ℝ) ^ (snr / 10) := by
+  unfold Gen.awgnSigmaR
+  simp only [fn_pow, fn_ofInt]
+  push_cast
+  rw [mul_pow, dbPow_sq, mul_one_div]
+
+/-- T19.1 on the GENERATED formula of the complex overload: re and im each get `σ²`, the total `2σ²` is
+`rms² / 10^(snr/10)` — this is where `std::sqrt(0.5)` (and not `0.5`, `1`, `sqrt(2)`) is needed. -/
+theorem gen_awgnSigmaC_sq (r snr : ℝ) : 2 * Gen.awgnSigmaC r snr ^ 2 = r ^ 2 / (10 : ℝ) ^ (snr / 10) := by
+  unfold Gen.awgnSigmaC
+  simp only [fn_pow, fn_ofInt, fn_sqrt]
+  push_cast
+  rw [mul_pow, mul_pow, dbPow_sq, Real.sq_sqrt (by norm_num)]
+  ring
+
+/-- T19.1 (real): the variance the code gives each noise sample is `P_x / 10^(snr/10)`.
+`sigmaR x snr` is `Gen.awgnSigmaR (rms x) snr` by definition (stated below as `sigmaR_is_generated`). -/
 theorem awgn_scale_real (x : List ℝ) (snr : ℝ) :
     sigmaR x snr ^ 2 = powerR x / (10 : ℝ) ^ (snr / 10) := by
-  unfold sigmaR sigmaRofRms
-  rw [mul_pow, rmsR_sq, dbFactor_sq, mul_one_div]
+  show Gen.awgnSigmaR (rmsR x) snr ^ 2 = _
+  rw [gen_awgnSigmaR_sq, rmsR_sq]
 
 /-- T19.1 (complex): re and im each get `σ²`; the total `2σ²` is `P_x / 10^(snr/10)`. -/
 theorem awgn_scale_cmplx (x : List (Cx ℝ)) (snr : ℝ) :
     2 * sigmaC x snr ^ 2 = powerC x / (10 : ℝ) ^ (snr / 10) := by
-  unfold sigmaC sigmaCofRms
-  rw [mul_pow, mul_pow, rmsC_sq, dbFactor_sq]
-  simp only [fn_sqrt, fn_ofNat]
-  rw [Real.sq_sqrt (by norm_num)]
-  push_cast
-  ring
+  show 2 * Gen.awgnSigmaC (rmsC x) snr ^ 2 = _
+  rw [gen_awgnSigmaC_sq, rmsC_sq]
+
+/-- the deviation of the model IS the generated formula applied to `rms(arr)` (definitional, both overloads; ∀ scalar
+type, so also at `Float` where the driver runs it) -/
+theorem sigmaR_is_generated {α : Type} [Add α] [Sub α] [Mul α] [Div α] [Neg α] [LT α] [LE α] [Fn α]
+    [DecidableRel (· < · : α → α → Prop)] [DecidableRel (· ≤ · : α → α → Prop)] (x : List α) (snr : α) :
+    sigmaR x snr = Gen.awgnSigmaR (rmsR x) snr := rfl
+
+theorem sigmaC_is_generated {α : Type} [Add α] [Sub α] [Mul α] [Div α] [Neg α] [LT α] [LE α] [Fn α]
+    [DecidableRel (· < · : α → α → Prop)] [DecidableRel (· ≤ · : α → α → Prop)] (x : List (Cx α)) (snr : α) :
+    sigmaC x snr = Gen.awgnSigmaC (rmsC x) snr := rfl
 
 
 -- the noise the real overload adds: `randn(n) * stddev` -/
